@@ -128,6 +128,21 @@ func RoundToEven(x *internal.Decimal) (*big.Int, error) {
 
 // MultipleOf reports whether x is a multiple of y.
 func MultipleOf(x, y *internal.Decimal) (bool, error) {
+	if x.Form == apd.Finite && y.Form == apd.Finite && !y.IsZero() {
+		// Exact for any number of digits: scale both numbers to integers
+		// and take the remainder.
+		e := min(x.Exponent, y.Exponent)
+		scale := func(d *internal.Decimal) *big.Int {
+			i := new(big.Int).Set(d.Coeff.MathBigInt())
+			p := new(big.Int).Exp(big.NewInt(10), big.NewInt(int64(d.Exponent-e)), nil)
+			return i.Mul(i, p)
+		}
+		// Guard against huge exponent differences such as 1e1000000 vs 1e-1000000.
+		if d := int64(x.Exponent) - int64(y.Exponent); d < 10000 && d > -10000 {
+			return new(big.Int).Rem(scale(x), scale(y)).Sign() == 0, nil
+		}
+	}
+
 	var d apd.Decimal
 
 	// TODO: It would be preferable to use internal.BaseContext.Rem here, and directly
